@@ -209,6 +209,8 @@ def _violate(rep, prop, tr, v, mine, seen_sig, note=""):
         return
     seen_sig.add(sig)
     payload = {"kind": "tree", "property": prop, "C": tr["C"], "ops": tr["ops"], "lazy": tr.get("lazy", False), "verdict": v, "note": note}
+    if tr.get("base_ops"):
+        payload["base_ops"] = tr["base_ops"]
     rep.violation(sig, payload, "trace %d (%s) event %d: clauses %s %s" % (tr["tid"], tr["C"].get("tree"), v["at"], ",".join(mine[:6]), note))
 
 
@@ -324,6 +326,22 @@ def run(prop, tier, replay=None):
 def do_replay(prop, path):
     with open(path) as fh:
         p = json.load(fh)
+    if p.get("kind") == "bt":
+        import check_bt
+
+        return check_bt.do_replay(prop, path)
+    if p.get("base_ops"):
+        # a C08 pair: the base history and the same history with redundant refreshes
+        b, v_ = treedrv.run_variant_fixed(p["C"], p["base_ops"], p["ops"], tid=1, lazy=p.get("lazy", False))
+        os.environ["TRACE_DEBUG"] = "1"
+        vd, st, out = tlcrun.validate_batch("Trace_BtAbs", [{"tid": t["tid"], "C": t["C"], "events": t["events"]} for t in (b, v_)])
+        bad = False
+        for tid, x in sorted(vd.items()):
+            print(json.dumps(x))
+            bad |= x["verdict"] == "FAIL" and any(common.clause_prop(c) == prop for c in x["clauses"])
+        if bad:
+            print("VIOLATION property=%s replay=%s" % (prop, path))
+        return 1 if bad else 0
     if isinstance(p.get("ops"), dict) and "repotest" in p["ops"]:
         import repotests
 
